@@ -7,7 +7,7 @@ From InToto.Model Require Import Base Json Rule Glob.
 Definition amap := list (str * json).
 
 Record link := mkLink {
-  l_name : str;
+  l_name : json;
   l_materials : amap;
   l_products : amap;
   l_byproducts : json;
